@@ -15,7 +15,7 @@ LEVEL = "exploration"
 TECHNIQUE = "Hypothesis-generated per-site inputs vs. long-double reference of the documented quadratic (differential oracle + validity predicates)"
 RULE = (
     "case = vector of 1..64 sites (psi magnitude drawn from {0, 1e-300..1e-3, 1e-3..1, 1..1e3}, mu, epsilon, "
-    "gamma incl. 0, u, dt over ten decades, random complex sparse Laplacian); non-trivial = contains an exact-zero, "
+    "gamma incl. 0, u, dt over ten decades, random complex sparse Laplacian) x retry ladder (adaptive on/off, max retries 0..10, multiplier 0.01..0.9) for the update as a whole; non-trivial = contains an exact-zero, "
     "a |psi|<1e-100 or a |psi|>1 site, or is refused, or has a site within 1e-3 relative of the discriminant boundary; "
     "distinct by spec hash"
 )
@@ -86,7 +86,10 @@ def _spec(draw, max_n):
                     draw(st.floats(-1e3, 1e3)),
                 ]
             )
-    return dict(n=n, r=r, theta=th, mu=mu, eps=eps, gamma=gamma, u=u, dt=dt, lap=entries)
+    # the update as a whole: the documented retry ladder dt, dt*m, dt*m^2, ... (adaptive) or the single attempt (adaptive off)
+    ladder = dict(adaptive=draw(st.sampled_from([True, True, True, False])), retries=draw(st.sampled_from([0, 0, 1, 2, 3, 5, 10])),
+                  multiplier=draw(st.sampled_from([0.25, 0.5, 0.1, 0.9, 0.01])))
+    return dict(n=n, r=r, theta=th, mu=mu, eps=eps, gamma=gamma, u=u, dt=dt, lap=entries, ladder=ladder)
 
 
 def strategy(tier):
@@ -153,11 +156,82 @@ def error_model(ref, eta):
     return dict(dw=dw, dw2=dw2, dt1=dt1, dD=dD, z=z, wabs=wabs)
 
 
+def _decide(psi, abs_sq, mu, eps, gamma, u, dt, L):
+    """'answer' / 'refuse' / None (inside the rounding band, or out of range) for one attempt with time step dt"""
+    ref = reference(psi, abs_sq, mu, eps, gamma, u, dt, L)
+    big = float(np.max(ref["z2"] * ref["w2"]) + np.max(ref["scale"]) ** 2 + np.max(np.abs(ref["tc1"])) ** 2)
+    if not np.isfinite(big) or big > 1e120:
+        return None
+    em = error_model(ref, ETA)
+    D, tc1 = ref["D"], ref["tc1"]
+    if np.any(D < -4 * em["dD"]) or np.any(tc1 < -4 * em["dt1"]):
+        return "refuse"
+    if np.all(D > 4 * em["dD"]) and np.all(tc1 > 4 * em["dt1"]):
+        return "answer"
+    return None
+
+
+def _check_ladder(spec, res, psi, abs_sq, mu, eps, L):
+    """The update (TDGLSolver.adaptive_euler_step, the documented retry loop around solve_for_psi_squared) is answered with the
+    first time step of the ladder for which a solution exists at every site, and refused only if there is none."""
+    import types
+
+    from tdgl.solver.solver import TDGLSolver
+
+    lad = spec["ladder"]
+    gamma, u, dt0 = spec["gamma"], spec["u"], spec["dt"]
+    R, m, adaptive = int(lad["retries"]), float(lad["multiplier"]), bool(lad["adaptive"])
+    rungs = [dt0]
+    if adaptive:
+        for _ in range(R + 1):
+            rungs.append(rungs[-1] * m)
+    verdicts = [_decide(psi, abs_sq, mu, eps, gamma, u, d, L) for d in rungs]
+    lap = sp.csr_array(L)
+    me = types.SimpleNamespace(options=types.SimpleNamespace(adaptive=adaptive, max_solve_retries=R, adaptive_time_step_multiplier=m),
+                               gamma=gamma, u=u, operators=types.SimpleNamespace(psi_laplacian=lap),
+                               solve_for_psi_squared=TDGLSolver.solve_for_psi_squared)
+    try:
+        out = TDGLSolver.adaptive_euler_step(me, 3, psi.copy(), abs_sq.copy(), mu, eps, dt0)
+    except RuntimeError as exc:
+        if "failed to converge" not in str(exc):
+            raise
+        out = None
+    first_answer = next((k for k, v in enumerate(verdicts) if v == "answer"), None)
+    res.label(f"update: {'refused' if out is None else 'answered'}", "update: adaptive" if adaptive else "update: adaptive off")
+    if out is None:
+        if first_answer is not None and all(v == "refuse" for v in verdicts[:first_answer]):
+            res.fail("C02.update_refused_although_solvable",
+                     f"the update raised although attempt {first_answer} of {len(rungs)} (dt={rungs[first_answer]:.3e}, max_solve_retries={R}, "
+                     f"multiplier={m}, adaptive={adaptive}) has a solution at every site")
+        if first_answer is not None and first_answer == len(rungs) - 1 and first_answer > 0:
+            res.label("update: solvable only at the last permitted attempt")
+        return
+    new_psi, new_sq, dt_used = out
+    k = next((j for j, d in enumerate(rungs) if d == dt_used), None)
+    if k is None:
+        res.fail("C02.update_time_step", f"the update was answered with dt={dt_used!r}, which is not one of the attempts {rungs[:4]}..")
+        return
+    if k:
+        res.label("update: answered after retries")
+        if k == len(rungs) - 1:
+            res.label("update: solvable only at the last permitted attempt")
+    if verdicts[k] == "refuse":
+        res.fail("C02.update_answered_without_solution", f"the update was answered at attempt {k} (dt={dt_used:.3e}) although no solution exists at some site")
+    j = next((j for j, v in enumerate(verdicts[:k]) if v == "answer"), None)
+    if j is not None:
+        res.fail("C02.update_skipped_solvable_step", f"the update was answered at attempt {k} although attempt {j} (dt={rungs[j]:.3e}) already has a solution at every site")
+    direct = TDGLSolver.solve_for_psi_squared(psi=psi.copy(), abs_sq_psi=abs_sq.copy(), mu=mu, epsilon=eps, gamma=gamma, u=u, dt=dt_used, psi_laplacian=lap)
+    if direct is None or not (np.array_equal(np.asarray(direct[0]), np.asarray(new_psi)) and np.array_equal(np.asarray(direct[1]), np.asarray(new_sq))):
+        res.fail("C02.update_result", f"the update's answer at dt={dt_used:.3e} is not the solution of the documented equation for that time step")
+
+
 def check_case(spec):
     from tdgl.solver.solver import TDGLSolver
 
     res = Result()
     psi, mu, eps, L = _inputs(spec)
+    if spec.get("ladder"):
+        _check_ladder(spec, res, psi, np.absolute(psi) ** 2, mu, eps, L)
     abs_sq = np.absolute(psi) ** 2  # exactly what the caller does
     gamma, u, dt = spec["gamma"], spec["u"], spec["dt"]
     ref = reference(psi, abs_sq, mu, eps, gamma, u, dt, L)
